@@ -502,6 +502,53 @@ def enclosing_stmt(src, lo, hi, k):
         raise ExtractError("cannot delimit statement at %s:%d" % (src.rel, src.line_of(toks[k].start)))
 
 
+def stmts_in_block(src, lo, hi):
+    """statements of the block whose inside is the token range [lo,hi): list of
+    (first_tok, end_tok, is_tail)"""
+    toks = src.toks
+    out = []
+    pos = lo
+    while True:
+        while pos < hi and toks[pos].kind in ("ws", "comment"):
+            pos += 1
+        if pos >= hi:
+            break
+        s0 = pos
+        blocky = (toks[s0].kind == "ident" and toks[s0].text in BLOCK_KW) or toks[s0].text == "{"
+        e = None
+        tail = False
+        while pos < hi:
+            t = toks[pos]
+            if t.kind == "punct":
+                if t.text in OPEN:
+                    if t.text == "{" and blocky:
+                        c = match_close(toks, pos)
+                        nxt = _next_sig(toks, c + 1, hi)
+                        if nxt is not None and toks[nxt].kind == "ident" and toks[nxt].text == "else":
+                            pos = c + 1
+                            continue
+                        if nxt is not None and toks[nxt].kind == "punct" and toks[nxt].text in (".", "?"):
+                            blocky = False
+                            pos = c + 1
+                            continue
+                        e = nxt if (nxt is not None and toks[nxt].text == ";") else c
+                        break
+                    pos = match_close(toks, pos) + 1
+                    continue
+                if t.text == ";":
+                    e = pos
+                    break
+            pos += 1
+        if e is None:
+            e = hi
+            tail = True
+        elif toks[e].text == "}" and _next_sig(toks, e + 1, hi) is None:
+            tail = True
+        out.append((s0, e, tail))
+        pos = e + 1
+    return out
+
+
 def lines_matching(src, lo_off, hi_off, literal):
     """character ranges (line_start, line_end) of lines inside [lo_off,hi_off)
     whose stripped text equals literal"""
@@ -1114,11 +1161,11 @@ class Unit:
             elif name == "bodyend":
                 # before the last statement / tail expression of the fn body
                 bo, bc = parts["body"]
-                ks = sig_indices(toks, bo + 1, bc)
-                if not ks:
+                sts = stmts_in_block(src, bo + 1, bc)
+                if not sts:
                     raise ExtractError("%s: empty body" % label)
-                s0, e, tail = enclosing_stmt(src, bo + 1, bc, ks[-1])
-                ed.insert(toks[s0].start, text + "\n", "A", "proof hint before the tail expression")
+                s0, e, tail = sts[-1]
+                ed.insert(toks[s0].start, text + "\n", "A", "proof hint before the last statement / tail expression")
             elif name == "arm_of":
                 # wrap the value of the match arm containing the K-th occurrence of a token
                 # sequence in a block that starts with the given proof text
@@ -1182,6 +1229,41 @@ class Unit:
                         last -= 1
                     ed.insert(toks[e0].start, "{\n" + text + "\n", "A", "match arm value wrapped in a block carrying a proof hint")
                     ed.insert(toks[last].end, " }", "A", "match arm value wrapped in a block carrying a proof hint")
+            elif name in ("blockend", "blockstart"):
+                # end / start of the first block `{ .. }` that follows the K-th occurrence of a
+                # token sequence (e.g. the body of `if let Err(i) = x.binary_search(..)`)
+                m = re.match(r"(\d+)\s+`(.*)`\s*$", arg)
+                if not m:
+                    raise ExtractError("%s: bad //@%s argument `%s`" % (label, name, arg))
+                kth, pat = int(m.group(1)), m.group(2)
+                bo, bc = parts["body"]
+                occ = find_token_seq(src, bo + 1, bc, pat)
+                if kth > len(occ):
+                    raise ExtractError("lost anchor: token sequence `%s` #%d not found in %s" % (pat, kth, label))
+                x = occ[kth - 1][1] + 1
+                depth = 0
+                while x < bc:
+                    t = toks[x]
+                    if t.kind == "punct":
+                        if t.text in ("(", "["):
+                            x = match_close(toks, x) + 1
+                            continue
+                        if t.text == "{":
+                            break
+                        if t.text in (";", "}"):
+                            raise ExtractError("lost anchor: no block follows `%s` in %s" % (pat, label))
+                    x += 1
+                if x >= bc:
+                    raise ExtractError("lost anchor: no block follows `%s` in %s" % (pat, label))
+                xc = match_close(toks, x)
+                if name == "blockstart":
+                    ed.insert(toks[x].end, "\n" + text + "\n", "A", "proof hint at block start")
+                else:
+                    last = xc - 1
+                    while toks[last].kind in ("ws", "comment"):
+                        last -= 1
+                    sep = "" if toks[last].text in (";", "}", "{") else ";"
+                    ed.insert(toks[xc].start, sep + "\n" + text + "\n", "A", "proof hint at block end (unit-typed block)")
             elif name == "loopbody":
                 bo, bc = parts["body"]
                 ls = loops_in(src, bo + 1, bc)
